@@ -88,7 +88,7 @@ def job_sites(fx, notes):
                 ps.lower.update(cs.lower)
                 ps.upper.update(cs.upper)
                 ps.phi.update(cs.phi)
-                ps.phi_zero.update(cs.phi_zero)
+                ps.phi_guard.update(cs.phi_guard)
                 ps.divinfo.update(cs.divinfo)
                 ps.weak |= cs.weak
                 ps.opaque.update(cs.opaque)
@@ -97,6 +97,24 @@ def job_sites(fx, notes):
                 start = ps.place({"l": rl, "p": [{"f": 0, "n": "start"}]})
                 end = ps.place({"l": rl, "p": [{"f": 1, "n": "end"}]})
                 yield g, t, pv, pb, ps, off, nbytes, start, end, key
+
+
+def _by_cases(ps, goal):
+    """Second attempt with the path-sensitive prover of p_tile: the goal for the last iteration (idx = hi - 1) and for
+    the earlier ones (idx <= hi - 2) separately, alternatives of control-flow-dependent values judged by their guards
+    (`bytes = if idx + 1 == blocks { tail } else { bsize }`)."""
+    import p_tile
+    from poly import Poly
+    idxs = sorted(a for a in ps.known if a.startswith("idx@") and p_tile._mentions(ps, goal, a))
+    if len(idxs) != 1:
+        return False
+    I = idxs[0]
+    if len(ps.lower.get(I, [])) != 1 or len(ps.upper.get(I, [])) != 1:
+        return False
+    hi = ps.upper[I][0]
+    one = Poly.const(1)
+    last = p_tile._deep_subst(ps, goal, I, hi - one, "idx=hi-1")
+    return p_tile.Prover(ps, I, idx_value=hi - one).prove(last) and p_tile.Prover(ps, I, idx_upper=hi - one - one).prove(goal)
 
 
 def jobs_within_range(fx):
@@ -111,7 +129,7 @@ def jobs_within_range(fx):
                 notes.append(dict(site=q.loc_of(t), goal=txt, undecided="expression does not resolve: %s" % bad[:4],
                                   off=repr(off), bytes=repr(nbytes)))
                 continue
-            ok = ps.prove_nonneg(goal)
+            ok = ps.prove_nonneg(goal) or _by_cases(ps, goal)
             if not ok and ps.weak_in(goal):
                 notes.append(dict(site=q.loc_of(t), goal=txt, off=repr(off), bytes=repr(nbytes),
                                   undecided="not provable, but a bound of %s did not resolve" % sorted(ps.weak_in(goal))[:3]))
